@@ -456,6 +456,25 @@ Theorem C06_failure_origin : forall edv vrs cfg sc,
 Proof. exact failure_origin. Qed.
 Print Assumptions C06_failure_origin.
 
+(* WHEN the call may GIVE UP: ErrInsufficientObservationResponses is returned only after an observation request naming
+   the lane has gone (accepted by PeerClient.Send or not) to EVERY configured observer of EVERY requested lane - the
+   error is reported only once the initial-request timer has fired, and when it fires every observer not yet asked is
+   asked.  So the call never fails for want of observations while there are observers it has not tried. *)
+Theorem C06_giveup_only_after_asking_all : forall edv vrs cfg sc evs l us,
+  run edv vrs fixed cfg sc evs = GFinal (Failure FInsufObs) l -> prepare cfg = inl (Ok us) ->
+  forall u n, In u us -> In n (u_nodes u) ->
+  exists r, In r l /\ sd_kind r = 0%N /\ sd_node r = n /\ In (u_chain u) (sd_chains r).
+Proof. exact giveup_only_after_asking_all. Qed.
+Print Assumptions C06_giveup_only_after_asking_all.
+
+Theorem C06_giveup_example :
+  exists l, run Witness.edv Witness.vrs fixed Witness.cfg Witness.sc
+              [Resp 1 (BMsg 1 (Witness.obs_of 99 105)); TimerFire; Resp 2 (BMsg 2 (Witness.obs_of 22 105));
+               Resp 3 (BMsg 3 (Witness.obs_of 99 105))]%N = GFinal (Failure FInsufObs) l /\
+            map (fun r => (sd_kind r, sd_node r, sd_chains r)) l = [(0, 1, [5]); (0, 2, [5]); (0, 3, [5])]%N.
+Proof. exact giveup_example. Qed.
+Print Assumptions C06_giveup_example.
+
 Theorem C06_requests_failure_example :
   (exists us, prepare Witness.cfg = inl (Ok us) /\
      map (fun r => (sd_kind r, sd_node r))
@@ -508,6 +527,52 @@ Theorem C06_judge_c06_log_kind_sound : forall i o,
 Proof. exact c06_log_kind_sound. Qed.
 Print Assumptions C06_judge_c06_log_kind_sound.
 
+(* GIVING UP (executable twin of C06_giveup_only_after_asking_all, clause [giveup_ok]): a passing output that reports
+   ErrInsufficientObservationResponses either shows in its Send log an observation request naming the lane to EVERY
+   observer of every requested lane, or there is a lane on which the voters of the best root in the script
+   ([have_votes]) together with the observers of that lane that were never asked ([unasked], characterised by the
+   second theorem) are fewer than F_home+1 - i.e. the observers never asked could not have completed the thresholds.
+   Otherwise, in the world where exactly the never-asked observers are honest and ready, the call would fail although
+   enough honest nodes would answer in time (C06_liveness); the liveness twin cannot see that, because the harness
+   scripts answers only to requests that were sent. *)
+Theorem C06_judge_giveup_sound : forall i o,
+  c06_ok i o = true ->
+  exists x, o = [x] /\
+    (o_kind x = 5%N -> forall us, prepare (i_cfg i) = inl (Ok us) ->
+     (forall u n, In u us -> In n (u_nodes u) ->
+        exists s, In s (o_log x) /\ snd_kind s = 0%N /\ snd_node s = n /\ In (u_chain u) (snd_chains s)) \/
+     (exists u, In u us /\
+        (zlen (dedupN (have_votes (i_cfg i) (i_items i) u ++ unasked (o_log x) u)) < u_F u + 1)%Z)).
+Proof. exact c06_giveup_sound. Qed.
+Print Assumptions C06_judge_giveup_sound.
+
+Theorem C06_judge_giveup_unasked : forall log u n,
+  In n (unasked log u) <->
+  In n (u_nodes u) /\
+  ~ exists s, In s log /\ snd_kind s = 0%N /\ snd_node s = n /\ In (u_chain u) (snd_chains s).
+Proof. exact unasked_in. Qed.
+Print Assumptions C06_judge_giveup_unasked.
+
+(* (a) for the give-up clause, from C06_giveup_only_after_asking_all: every outcome the model allows passes it. *)
+Theorem C06_judge_giveup_model : forall off i x,
+  NoDup (map sg_node (c_signers (i_cfg i))) /\ NoDup (map sg_addr (c_signers (i_cfg i))) /\
+  NoDup (map hn_id (c_nodes (i_cfg i))) ->
+  In x (c06_model_from off i) -> giveup_ok (i_cfg i) (i_items i) x = true.
+Proof. exact model_outcome_giveup. Qed.
+Print Assumptions C06_judge_giveup_model.
+
+(* Non-vacuity (Witness.cfg: nodes 1, 2, 3 observe lane 5, F_home = 1, the initial wave asks 1 and 2).  early: 1 votes
+   105, 2 votes 106, the output gives up with observer 3 never asked - rejected (3 and the voter of 105 are F_home+1),
+   and the Prop-level clause fails too.  late: 1 answers badly, the timer fires and 3 is asked, 2 votes 105, 3 answers
+   badly, the output gives up with all three asked - accepted, and it is what the model says. *)
+Theorem C06_judge_giveup_example :
+  (giveup_ok Witness.cfg ExG.items_early ExG.early_out = false /\
+   ~ giveup_P Witness.cfg ExG.items_early ExG.early_out) /\
+  (giveup_ok Witness.cfg ExG.items_late ExG.late_out = true /\
+   c06_oeqb (c06_model ExG.inp_late) [ExG.late_out] = true).
+Proof. exact ExG.giveup_examples. Qed.
+Print Assumptions C06_judge_giveup_example.
+
 (* LIVENESS.  [live_test_from off i] IS the hypothesis of C06_liveness for the case, for EVERY schedule (iteration
    order of rmnNodeInfo, of the vote map) and EVERY event list (due timers, race resolutions) the model allows for it:
    [eager_evs] are the event lists behind the outcomes of the model, [sched_of] the schedules. *)
@@ -549,7 +614,8 @@ Theorem C06_judge_c06_live_sound : forall i o,
 Proof. exact c06_live_sound. Qed.
 Print Assumptions C06_judge_c06_live_sound.
 
-(* histories: every call satisfies all clauses — C06_judge_c06_sound, the log / kind clauses and the liveness clause —
+(* histories: every call satisfies all clauses — C06_judge_c06_sound, the log / kind clauses, the liveness clause and
+   the give-up clause ([giveup_P] = the conclusion of C06_judge_giveup_sound) —
    against ITS configuration, ITS script and ITS position in the request-id stream ([c06_full_P off i x] is the
    conjunction of the conclusions above for input i, output x and id offset off). *)
 Theorem C06_judge_hist_sound_full : forall h o,
@@ -558,7 +624,8 @@ Theorem C06_judge_hist_sound_full : forall h o,
              c06_P (snd c) x /\ log_P (i_cfg (snd c)) (o_log x) (o_attr x) /\
              kind_P (i_cfg (snd c)) (i_items (snd c)) x /\
              ((exists us rho, live_facts (N.to_nat (fst c)) (snd c) us rho) ->
-              live_test_from (N.to_nat (fst c)) (snd c) = true -> o_kind x = 0%N)) h o.
+              live_test_from (N.to_nat (fst c)) (snd c) = true -> o_kind x = 0%N) /\
+             giveup_P (i_cfg (snd c)) (i_items (snd c)) x) h o.
 Proof. exact hist_sound_full. Qed.
 Print Assumptions C06_judge_hist_sound_full.
 
